@@ -153,6 +153,10 @@ func (g *genState) genOpenOpts(first bool) OpenOpts {
 
 func genRunCfg(rng *Rng, p profile) (*RunCfg, *genState) {
 	cfg := &RunCfg{Profile: p.name, StartUS: defaultStartUS + rng.I64(0, 1000000)}
+	if rng.Chance(8) {
+		// a clock around (mostly before) the Unix epoch: message times are negative microsecond counts
+		cfg.StartUS = -rng.I64(0, 3000000)
+	}
 	cfg.Keys = rng.Bool()
 	cfg.Times = rng.Bool()
 	if p.forceKeys > 0 {
